@@ -5,6 +5,8 @@ import (
 	"errors"
 	"fmt"
 	"hash/fnv"
+	"net"
+	"os"
 	"sort"
 	"strings"
 	"testing"
@@ -401,7 +403,14 @@ func c04Run(t *testing.T, c *choice.Stream, r *Result, opt RunOpt, forced *c04Fo
 				names = []string{"input"}
 			}
 			sc.rec.FailAt = map[string]int{names[c.Draw("cb.name", len(names))]: 1 + c.Draw("cb.j", 3)}
-			if c.Bool("cb.exception-like", 1, 3) {
+			switch c.Draw("cb.other-like", 6) {
+			case 0:
+				// ... or carries the timeout of a socket of the callback's own
+				sc.rec.FailWith = fmt.Errorf("forward rows: %w", &net.OpError{Op: "write", Net: "tcp", Err: os.ErrDeadlineExceeded})
+			case 1:
+				sc.rec.FailWith = fmt.Errorf("callback gave up: %w", context.Canceled)
+			}
+			if sc.rec.FailWith == nil && c.Bool("cb.exception-like", 1, 3) {
 				// the callback's own error happens to carry a server exception (say, of a
 				// query it ran on another connection): this query's stream is still cut
 				// short in the middle, and the error must not be mistaken for its end
